@@ -4,6 +4,7 @@
 import AuthProofs.Ladder
 import AuthProofs.StrLemmas
 import AuthModel.Generated.Facts
+import AuthModel.Config
 namespace AuthProps.C05
 open AuthModel AuthModel.Oidc AuthModel.Str
 
@@ -29,6 +30,19 @@ theorem cookie_name_host_prefix (cfg : Cfg) : hasPrefix (cookieName cfg) (B "__H
     exact Str.hasPrefix_append (B "__Host-") _
   · decide
 
+/-- THE COOKIE NAME IS ONE COOKIE NAME. For every prefix the configuration loader accepts (`isCookieNameToken`, part of
+    `Resolved` in C17 since c10ccd6) the whole name `__Host-<prefix>-authservice-session-id-cookie` consists of
+    cookie-name characters only: no `;`, `=`, space or control character can end the name early or smuggle an
+    attribute (Domain, Path ...) into the Set-Cookie header. -/
+theorem cookie_name_is_token (cfg : Cfg) (h : Config.isCookieNameToken cfg.cookiePrefix = true) :
+    Config.isCookieNameToken (cookieName cfg) = true := by
+  unfold cookieName
+  split
+  · unfold Config.isCookieNameToken at *
+    simp only [List.all_append, Bool.and_eq_true]
+    exact ⟨⟨by decide, h⟩, by decide⟩
+  · decide
+
 /-- shape of every Set-Cookie: name=value; HttpOnly; Secure; SameSite=Lax; Path=/ (+ Max-Age=0 on logout); no Domain -/
 theorem set_cookie_shape (name value : Str) :
     setCookie name value none = name ++ [61] ++ value ++ B "; HttpOnly; Secure; SameSite=Lax; Path=/" ∧
@@ -50,6 +64,7 @@ end AuthProps.C05
 #print axioms AuthProps.C05.redirect_renews
 #print axioms AuthProps.C05.writes_only_under_issued
 #print axioms AuthProps.C05.cookie_name_host_prefix
+#print axioms AuthProps.C05.cookie_name_is_token
 #print axioms AuthProps.C05.set_cookie_shape
 #print axioms AuthProps.C05.directives_match_source
 #print axioms AuthProps.C05.name_parts_match_source
